@@ -4,7 +4,7 @@ CONSTANTS k1, k2, k3
 KeyOrdDef == (k1 :> 1 @@ k2 :> 2 @@ k3 :> 3)
 InjectiveOnce == (\A n \in Node : entries[n] = {}) => Injective   \* evaluated in initial states only
 GenPrint ==
-    (\A n \in Node : closed[n].done) =>
+    (\A n \in Node : closed[n].done /\ closed[n].total > 0) =>
         PrintT(<<"CASE", ToJson([target |-> [k \in DOMAIN target |-> target[k]],
                                  orders |-> order,
                                  slots |-> [k \in DOMAIN target |-> Slot(closed[CHOOSE n \in Node : TRUE], k) - 1],
